@@ -15,6 +15,7 @@ mod mat;
 mod xform;
 mod proj;
 mod lerp;
+mod bezier;
 
 fn main() {
     let args: Vec<String> = std::env::args().collect();
@@ -34,6 +35,9 @@ fn main() {
         ("replay", "lerp") => lerp::replay(rest),
         ("drive", "lerp") => lerp::drive_lerp(rest),
         ("drive", "slerp") => lerp::drive_slerp(rest),
+        ("drive", "bezier") => bezier::drive_bezier(rest),
+        ("drive", "bezext") => bezier::drive_bezext(rest),
+        ("drive", "bezlen") => bezier::drive_bezlen(rest),
         ("drive", "proj") => proj::drive_proj(rest),
         ("drive", "viewport") => proj::drive_viewport(rest),
         (a, b) => { eprintln!("unknown command {} {}", a, b); std::process::exit(2); }
